@@ -1,5 +1,6 @@
 import H4.Gen.Hdf
 import H4.Gen.Fmt
+import H4.Gen.FmtNc
 import H4.Gen.Hcomp
 import H4.Rle
 import H4.SkpHuffIO
@@ -1059,6 +1060,22 @@ def checkVG (dds : List DD) (ref : Nat) (g : VG) : R Unit := do
     if t ≠ DFTAG_VH then bad "vg" s!"DFTAG_VG/{ref}: attribute tag {t}"
     if !exists_ dds t r then bad "xref" s!"DFTAG_VG/{ref}: attribute vdata {t}/{r} does not exist"
 
+/-- a group record (`DFdiwrite`: `DFTAG_RIG`, `DFTAG_NDG`, `DFTAG_SDG`): a list of (tag, ref) pairs, 4 bytes each -/
+def decodeGroup : Bytes → Option (List (Nat × Nat))
+  | [] => some []
+  | a :: b :: c :: d :: rest => (decodeGroup rest).map (fun l => (be16 a b, be16 c d) :: l)
+  | _ => none
+
+/-- members of a group that need not be in the file: the data element of an image / data set may be named before it is written;
+    `BOGUS_TAG` (721) marks an NDG written by the SD interface and is "never actually written to the file" (htags.h) -/
+def groupDataTags : List Nat := [DFTAG_RI, DFTAG_CI, DFTAG_SD, H4.Gen.FmtNc.BOGUS_TAG]
+
+/-- every DESCRIPTIVE member of a group (dimension record, number type, palette, labels ...) is in the file: the old
+    interfaces (DFR8, DF24, DFSD) and `GRstart` / `SDstart` read them through the group and fail when one is missing -/
+def checkGroup (dds : List DD) (tag ref : Nat) (ms : List (Nat × Nat)) : R Unit := do
+  for (t, r) in ms do
+    if !(groupDataTags.contains t) ∧ !exists_ dds t r then bad "xref" s!"group {tag}/{ref}: member {t}/{r} does not exist"
+
 /-- logical bytes of the element behind a descriptor, when the reader can produce them -/
 def Elem.bytes? (e : Elem) : Option Bytes := e.ldata.data.map (·.toList)
 
@@ -1088,6 +1105,10 @@ def readRecords (dds : List DD) (elems : List Elem) : R (List (Nat × VH) × Lis
       | some g =>
         checkVG dds e.dd.ref g
         vgs := vgs ++ [(e.dd.ref, g)]
+    else if e.dd.tag = DFTAG_RIG ∨ e.dd.tag = Gen.Hdf.DFTAG_NDG ∨ e.dd.tag = DFTAG_SDG then
+      match e.bytes?.bind decodeGroup with
+      | none => bad "group" s!"group {e.dd.tag}/{e.dd.ref}: record unreadable or not a list of tag/ref pairs (length {e.ldata.len})"
+      | some ms => checkGroup dds e.dd.tag e.dd.ref ms
     else if e.dd.tag = DFTAG_VERSION then
       match e.bytes?.bind decodeVersion with
       | none => bad "version" s!"DFTAG_VERSION/{e.dd.ref}: not {LIBVER_LEN} bytes"
